@@ -148,6 +148,14 @@ def run_case(case, built=None, keep_obs=False):
         r0 = obs.runs[0]
         stats['outcome_class'] = (r0.outcome, hashlib.sha1(repr(r0.value).encode()).hexdigest()[:10]
                                   if r0.outcome == 'value' else None)
+    for f in findings:
+        if f['kind'] == 'cancelled_escaped':
+            # nobody cancelled the run and no body raised CancelledError: the engine cancelled work the run needed.
+            # That is not the dataflow outcome (C01) and, if a one-of candidate was lost in this run, not contained (C10)
+            extra = {'C01'} if any(r.outcome[0] == 'value' for r in refs.values()) else set()
+            if any(r.losers for r in refs.values()):
+                extra.add('C10')
+            f['prop'] = sorted(set(f['prop']) | extra)
     dyn = set()
     for r in refs.values():
         dyn |= r.dyn
@@ -161,9 +169,9 @@ def run_case(case, built=None, keep_obs=False):
         if 'case_shared' in (prog.get('tags') or []):
             extra.add('C09')        # "a selected case already computed for another consumer is reused"
         for r in refs.values():
-            if r.outcome[0] == 'value':
-                extra.add('C01')    # the run has to yield the reference value under every schedule
+            extra.add('C01')        # the run has to yield the reference outcome (value or failure) under every schedule
             if r.outcome[0] != 'value':
+                extra.add('C05')    # ... and a failure has to be reported, not waited for
                 for cse in r.outcome[1]:
                     extra |= {'badlabel': {'C09'}, 'oneof': {'C10'}, 'rec': {'C11'}}.get(cse[0], set())
         for f in findings:
